@@ -4,6 +4,7 @@ import (
 	"fmt"
 	"math/big"
 
+	"github.com/bronlabs/bron-crypto/pkg/base/ct"
 	"github.com/bronlabs/bron-crypto/pkg/base/nt/cardinal"
 	"github.com/bronlabs/bron-crypto/pkg/base/nt/num"
 	"github.com/bronlabs/bron-crypto/pkg/base/nt/numct"
@@ -11,6 +12,8 @@ import (
 
 	"verif/harness/internal/vh"
 )
+
+func ctChoice(i int) ct.Choice { return ct.Choice(i) }
 
 func init() {
 	// ---- sampling in a range: lo hi seed; the sampled value is judged by the model entry range.check
@@ -209,5 +212,214 @@ func init() {
 	opByName["znstar.jacobi"].lineArgs = func(c *tcase) []*big.Int {
 		n := new(big.Int).Mul(c.args[1], c.args[2])
 		return []*big.Int{c.args[3], n, c.args[1], one, c.args[2], one}
+	}
+}
+
+func init() {
+	// ---- numct.Int Select / CondAssign / CondNeg / Increment / Decrement / Double / Square
+	register(&opDef{name: "int.misc", weight: 5,
+		gen: func(r *vh.Rng, g *genCtx) *tcase {
+			x, y := g.sval(r), g.sval(r)
+			ax, ay := g.capOK(r, x), g.capOK(r, y)
+			return &tcase{args: []*big.Int{zi(r.Intn(2)), x, zi(ax), y, zi(ay)}, mode: r.Intn(2)}
+		},
+		impl: func(c *tcase) (string, string) {
+			ch := ctChoice(ai(c, 0))
+			x, y := mkInt(c.args[1], ai(c, 2)), mkInt(c.args[3], ai(c, 4))
+			sel := new(numct.Int)
+			if c.mode == 0 {
+				sel.Select(ch, x, y)
+			} else {
+				sel = x.Clone()
+				sel.CondAssign(ch, y)
+			}
+			inc, dec, dbl, sq, cn := x.Clone(), x.Clone(), new(numct.Int), new(numct.Int), x.Clone()
+			inc.Increment()
+			dec.Decrement()
+			dbl.Double(x)
+			sq.Square(x)
+			cn.CondNeg(ch)
+			if x.Big().Cmp(intIn(ai(c, 2), c.args[1])) != 0 {
+				return "ok:operand-changed", ""
+			}
+			return okz(sel.Big(), inc.Big(), dec.Big(), dbl.Big(), sq.Big(), cn.Big()), ""
+		},
+		orac: func(c *tcase) string {
+			x, y := intIn(ai(c, 2), c.args[1]), intIn(ai(c, 4), c.args[3])
+			sel, cn := x, x
+			if ai(c, 0) == 1 {
+				sel, cn = y, new(big.Int).Neg(x)
+			}
+			return okz(sel, new(big.Int).Add(x, one), new(big.Int).Sub(x, one), new(big.Int).Lsh(x, 1), new(big.Int).Mul(x, x), cn)
+		}})
+
+	// ---- conversions between num structures: x m
+	register(&opDef{name: "num.convert", weight: 6,
+		gen: func(r *vh.Rng, g *genCtx) *tcase {
+			m := g.modulus(r)
+			x := g.residue(r, m)
+			if r.Intn(2) == 0 {
+				x.Neg(x)
+			}
+			return &tcase{args: []*big.Int{x, m.m}}
+		},
+		impl: func(c *tcase) (string, string) {
+			x, m := c.args[0], c.args[1]
+			xi := nZ(x)
+			_, errN := num.N().FromInt(xi)
+			ab := xi.Abs()
+			fromBytes, err := num.N().FromBytes(ab.Bytes())
+			if err != nil || fromBytes.Big().Cmp(ab.Big()) != 0 {
+				return "ok:nat-bytes-roundtrip-differs", ""
+			}
+			if back, err := num.Z().FromNat(ab); err != nil || back.Big().Cmp(ab.Big()) != 0 {
+				return "ok:int-from-nat-differs", ""
+			}
+			if x.Sign() != 0 {
+				if np, err := num.NPlus().FromNat(ab); err != nil || np.Big().Cmp(ab.Big()) != 0 {
+					return "ok:natplus-from-nat-differs", ""
+				}
+			} else if _, err := num.NPlus().FromNat(ab); err == nil {
+				return "ok:natplus-accepts-zero", ""
+			}
+			zn, err := num.NewZMod(nP(m))
+			if err != nil {
+				return "panic", ""
+			}
+			u, err := zn.FromInt(xi)
+			if err != nil {
+				return "refuse", ""
+			}
+			red, err := zn.FromBytesBEReduce(ab.Bytes())
+			if err != nil {
+				return "refuse", ""
+			}
+			sym, err := num.Z().FromUintSymmetric(u)
+			if err != nil {
+				return "refuse", ""
+			}
+			if u.Lift().Big().Cmp(u.Big()) != 0 || u.Nat().Big().Cmp(u.Big()) != 0 {
+				return "ok:uint-lift-differs", ""
+			}
+			// FromBytes of an unreduced value must be refused, of a reduced one accepted
+			if _, err := zn.FromBytes(ab.Bytes()); (err == nil) != (ab.Big().Cmp(m) < 0) {
+				return "ok:zmod-frombytes-range-check-differs", ""
+			}
+			return okz(zb(errN == nil), ab.Big(), u.Big(), red.Big(), sym.Big()), ""
+		},
+		orac: func(c *tcase) string {
+			x, m := c.args[0], c.args[1]
+			ab := new(big.Int).Abs(x)
+			return okz(zb(x.Sign() >= 0), ab, bmod(x, m), bmod(ab, m), symmetric(x, m))
+		}})
+
+	// ---- znstar sampling with a prescribed Jacobi symbol / quadratic residues: kind p q j seed
+	register(&opDef{name: "znstar.random", model: "jacobi", weight: 4,
+		gen: func(r *vh.Rng, g *genCtx) *tcase {
+			kind := 3 + r.Intn(3)
+			p, q := g.twoPrimes(r, 256)
+			return &tcase{args: []*big.Int{zi(kind), p, q, zi(1 - 2*r.Intn(2)), zi(r.Intn(1 << 30))}, mode: r.Intn(2)}
+		},
+		impl: func(c *tcase) (string, string) {
+			kind, p, q, j := ai(c, 0), c.args[1], c.args[2], ai(c, 3)
+			rd := vh.NewRng(c.args[4].Int64(), "C17", "znstar-sample", c.mode)
+			var v *big.Int
+			sample := func(withJ func() (*big.Int, error), qr func() (*big.Int, error)) error {
+				var err error
+				if c.mode == 0 {
+					v, err = withJ()
+				} else {
+					v, err = qr()
+				}
+				return err
+			}
+			var err error
+			switch kind {
+			case 3, 4:
+				gk, e := znstar.NewRSAGroup(nP(p), nP(q))
+				if e != nil {
+					return "refuse", ""
+				}
+				err = sample(func() (*big.Int, error) {
+					u, e := gk.RandomWithJacobi(j, rd)
+					if e != nil {
+						return nil, e
+					}
+					return u.Value().Big(), nil
+				}, func() (*big.Int, error) {
+					u, e := gk.RandomQuadraticResidue(rd)
+					if e != nil {
+						return nil, e
+					}
+					return u.Value().Big(), nil
+				})
+			default:
+				gk, e := znstar.NewPaillierGroup(nP(p), nP(q))
+				if e != nil {
+					return "refuse", ""
+				}
+				err = sample(func() (*big.Int, error) {
+					u, e := gk.RandomWithJacobi(j, rd)
+					if e != nil {
+						return nil, e
+					}
+					return u.Value().Big(), nil
+				}, func() (*big.Int, error) {
+					u, e := gk.RandomQuadraticResidue(rd)
+					if e != nil {
+						return nil, e
+					}
+					return u.Value().Big(), nil
+				})
+			}
+			if err != nil {
+				return "refuse", ""
+			}
+			c.extra = []*big.Int{v}
+			return okz(v), ""
+		},
+		// the model computes the Jacobi symbol of the sampled value (loop and factorisation spec)
+		rel: func(c *tcase, impl, model string) string {
+			mv := parseOk(model)
+			if mv == nil || len(mv) != 2 || parseOk(impl) == nil {
+				return fmt.Sprintf("implementation %s, model %s", trunc(impl), model)
+			}
+			want := int64(ai(c, 3))
+			if c.mode == 1 {
+				want = 1
+			}
+			if mv[0].Int64() != want || mv[1].Int64() != want {
+				return fmt.Sprintf("sampled element has Jacobi symbol %s (model), requested %d", mv[1].String(), want)
+			}
+			return ""
+		},
+		pred: func(c *tcase, impl string) string {
+			v := parseOk(impl)
+			if v == nil {
+				return "sampling failed: " + impl
+			}
+			p, q := c.args[1], c.args[2]
+			n := new(big.Int).Mul(p, q)
+			if new(big.Int).GCD(nil, nil, v[0], n).Cmp(one) != 0 {
+				return "sampled element is not a unit"
+			}
+			if c.mode == 1 {
+				if big.Jacobi(v[0], p) != 1 || big.Jacobi(v[0], q) != 1 {
+					return "sampled 'quadratic residue' is not a square modulo both primes"
+				}
+				return ""
+			}
+			if big.Jacobi(v[0], n) != ai(c, 3) {
+				return fmt.Sprintf("sampled element has Jacobi symbol %d, requested %d", big.Jacobi(v[0], n), ai(c, 3))
+			}
+			return ""
+		}})
+	opByName["znstar.random"].lineArgs = func(c *tcase) []*big.Int {
+		n := new(big.Int).Mul(c.args[1], c.args[2])
+		v := big.NewInt(1)
+		if len(c.extra) == 1 {
+			v = c.extra[0]
+		}
+		return []*big.Int{v, n, c.args[1], one, c.args[2], one}
 	}
 }
